@@ -84,7 +84,7 @@ def run(ctx):
     q = ctx.quick()
     sizes = {"expr": 500 if q else 40000, "file": 350 if q else 30000,
              "lit": 100 if q else 2000, "layout": 400 if q else 6000, "near": 25 if q else 250,
-             "unparen": 400 if q else 6000, "ungram": 330 if q else 1700}
+             "unparen": 400 if q else 6000, "ungram": 330 if q else 1700, "lists": 4 if q else 5}
     coq_cap = {"expr": 30 if q else 1500, "file": 25 if q else 1200, "near": 80 if q else 2500,
                "layout": 30 if q else 2000, "int": 80 if q else 3000, "float": 30 if q else 1500,
                "unparen": 60 if q else 2500, "ungram": 120 if q else 1700}
@@ -129,7 +129,7 @@ def run(ctx):
     ncap = {"near": coq_cap["near"], "unparen": coq_cap["unparen"], "ungram": coq_cap["ungram"]}
     nk = {"near": 0, "unparen": 0, "ungram": 0}
     # accepted mutants first: that is where a widened parser shows (model rejects / tree ill-formed)
-    nearall = sorted(obs["ungram"] + obs["near"] + obs["unparen"], key=lambda c: 0 if c.get("parse") == "ok" else 1)
+    nearall = sorted(obs["lists"] + obs["ungram"] + obs["near"] + obs["unparen"], key=lambda c: 0 if c.get("parse") == "ok" else 1)
     for c in nearall:
         fam = c["mut"].split(":")[0] if c["mut"].split(":")[0] in ("unparen", "ungram") else "near"
         if not c["ok"]:
@@ -241,7 +241,7 @@ def run(ctx):
         "evaluations": sum(len(v) for v in obs.values()),
         "distinct_nontrivial": len(set(c["src"] for v in obs.values() for c in v)),
         "coq_evaluated": len(terms),
-        "rule": "generated trees (depth 6, all expression and statement forms, random layout, minimal+redundant parentheses) -> text -> real ParseExpr/Parse compared with the generated tree and the renderer's positions (Go side, all cases) and real tokens -> Coq model parser = real tree, Print.v(tree) = real token kinds (Coq sample); literal sweeps radix x size (<= 200 bits) x pattern, float forms, every escape in every quoting; layout streams vs the indentation model; one-token deletions/duplications/swaps/replacements, texts with one required parenthesis dropped, and structured non-grammatical texts (compound statements in inline suites or after ';', statements/assignments in expression position, suites without indent, chained headers, dangling else/elif, unsupported keywords and notations, malformed def/lambda/call/index/comprehension/load forms, bad indentation): accept/reject and tree vs model, an accept the model rejects is a finding keyed by construct class, accepted text = rendering of its tree",
+        "rule": "generated trees (depth 6, all expression and statement forms, random layout, minimal+redundant parentheses) -> text -> real ParseExpr/Parse compared with the generated tree and the renderer's positions (Go side, all cases) and real tokens -> Coq model parser = real tree, Print.v(tree) = real token kinds (Coq sample); literal sweeps radix x size (<= 200 bits) x pattern, float forms, every escape in every quoting; layout streams vs the indentation model; one-token deletions/duplications/swaps/replacements, texts with one required parenthesis dropped, and structured non-grammatical texts (compound statements in inline suites or after ';', statements/assignments in expression position, suites without indent, chained headers, dangling else/elif, unsupported keywords and notations, malformed def/lambda/call/index/comprehension/load forms, bad indentation), and every def/lambda parameter list and call argument list of up to 4 (thorough: 5) items, which the parser accepts unvalidated, against a spec-derived oracle for parser+resolver: accept/reject and tree vs model, an accept the model rejects is a finding keyed by construct class, accepted text = rendering of its tree",
         "samples": [{"kind": c["kind"], "src": c["src"][:200]} for c in (refs[:3] + refs[len(refs) // 2: len(refs) // 2 + 2])],
         "distribution": dist, "literals": nlit, "go_side_failures": go_bad,
         "model_mismatches": len(bad_model), "spec_mismatches": len(bad_spec), "sound_mismatches": len(bad_sound),
